@@ -3481,7 +3481,11 @@ impl<'a, R: FileManager> FrontendCtx<'a, R> {
         };
         // a conditional type whose checked type is a naked type parameter distributes over a union
         // bound to that parameter: F<A | B> is F<A> | F<B>
-        if let TsType::TsTypeRef(r) = &*t.check_type
+        let mut checked: &TsType = &t.check_type;
+        while let TsType::TsParenthesizedType(p) = checked {
+            checked = &p.type_ann;
+        }
+        if let TsType::TsTypeRef(r) = checked
             && r.type_params.is_none()
             && let TsEntityName::Ident(id) = &r.type_name
             && let Some((name, bound)) = self
